@@ -204,6 +204,7 @@ class Bus24:
         elif len(answers) == 1 and answers[0] != "COLLISION":
             out = F.BackwardFrame(0xFF if answers[0] == "YES" else answers[0])
         else:
-            out = F.BackwardFrameError(0xFF)
+            from dalimc.env import gear102 as _G
+            out = F.BackwardFrameError(_G.COLLISION_BYTE)
         self.log.append((desc, None if out is None else ("err" if out.error else out.as_integer)))
         return out
